@@ -431,9 +431,10 @@ def enumerate_faults(ch, solvers, op, plan, run_worker, cache, streams, viol, ct
         n = len(st.msgs)  # last one is the completion marker
         for cut in range(n):  # dies after having put `cut` messages (never the marker)
             combos.append((st.w, cut, "exception", 0))
+            combos.append((st.w, cut, "exit0", 0))
             for lost in range(0, min(cut, 2) + 1):
                 combos.append((st.w, cut, "kill", lost))
-    cap = params.get("max_faults_per_scenario", 24)
+    cap = params.get("max_faults_per_scenario", 30)
     exhaustive = len(combos) <= cap
     if not exhaustive:
         picked = []
@@ -451,7 +452,7 @@ def enumerate_faults(ch, solvers, op, plan, run_worker, cache, streams, viol, ct
             if nw > 1 and ch.chance(1, 6, "second"):
                 w2 = (w + 1 + ch.choose(nw - 1, "second.w")) % nw
                 n2 = len(streams[w2].msgs)
-                p["faults"][w2] = {"kind": ["exception", "kill"][ch.choose(2, "second.kind")], "cut": ch.choose(n2, "second.cut"), "lost": 0}
+                p["faults"][w2] = {"kind": ["exception", "kill", "exit0"][ch.choose(3, "second.kind")], "cut": ch.choose(n2, "second.cut"), "lost": 0}
                 out["faults"]["double-death"] += 1
             p["template"] = ["merge", "jitter", "slow"][ch.choose(3, "template")]
             if nw > 1 and ch.chance(1, 4, "stall"):
